@@ -18,7 +18,7 @@ PROPERTY_ID = 'C13'
 
 RULE = ('Model sizes are enumerated over everything that fits (co_oxidation order 2..6, signaling_cascade d 2..4, toll_station '
         '2..5 lanes x 1..3 cars, two_step m 1..3, qft/iqft n 1..7, qfa, qfan 1..5, and in TT form only: co_oxidation up to order 14, toll_station up to 9 lanes, signaling_cascade up to d 7, two_step m 4..5, qfan up to 9 adders, exciton_chain / ising up to 14 sites; shor a in units mod 15, exciton_chain 2..7 '
-        'sites, ising 2..8 sites, fpu d 3..6, kuramoto d 2..6, fractals dimension 1..3 x level 1..8 as far as 3^(level*dim) <= 6e5 / 6e6 entries) and combined with '
+        'sites, ising 2..8 sites, fpu d 3..6, kuramoto d 2..6, fractals dimension 1..6 x level 1..8 as far as 3^(level*dim) <= 6e5 / 6e6 entries) and combined with '
         'Hypothesis-drawn rate constants, couplings, frequencies, evaluation points. Oracles are the defining formulas: column '
         'sums / sign pattern (dense, or in TT form: norm of 1^T A by transfer matrices plus sampled off-diagonal entries through '
         'core slices), G^H G = I (dense, or ||G^H G - I||_F by harness-side TT arithmetic), bit-reversed DFT for the product of '
@@ -343,12 +343,12 @@ def fractal_case(draw):
     model = draw(st.sampled_from(['cantor_dust', 'multisponge', 'vicsek_fractal', 'rgb_fractal']))
     c = {'model': model, 'level': draw(st.integers(1, 8)), 'seed': draw(gen.SEED)}
     if model == 'cantor_dust':
-        c['dimension'] = draw(st.integers(1, 3))
+        c['dimension'] = draw(st.sampled_from([1, 2, 3, 3, 4, 5]))
     elif model == 'rgb_fractal':
         c['n'] = draw(st.integers(1, 3))
         c['level'] = min(c['level'], 6 if c['n'] <= 2 else 4)
     else:
-        c['dimension'] = draw(st.integers(2, 3))
+        c['dimension'] = draw(st.sampled_from([2, 3, 3, 4, 4, 5, 6]))
     if 'dimension' in c:
         while 3 ** (c['level'] * c['dimension']) > FRACTAL_MAX:
             c['level'] -= 1
